@@ -102,7 +102,7 @@ def run(env, rep):
         "add the timestamp, and a type-3 header re-applies the delta only at the first chunk of a message; R4: the only inputs a stage "
         "of the reader refuses (returns Err for) are a compressed header on a chunk stream without a previous header and an announced "
         "message length smaller than the bytes already held for that message (strictly) - every other chunk, including an empty "
-        "message, is accepted.  R6: each chunk's payload is min(bytes still missing of the message, chunk size) as section 5.3.1 prescribes, decided at the call that takes the bytes.  R5: a stage that suspends for lack of bytes leaves no observable effect (C15 R1), so a conformant stream decodes the same however it is fragmented.  Not decided: the decoding function over all legal encodings.")
+        "message, is accepted.  R6: each chunk's payload is min(bytes still missing of the message, chunk size) as section 5.3.1 prescribes, decided at the call that takes the bytes; R7: a stage answers 'not enough bytes' only while the buffer holds fewer bytes than that stage consumes, so a complete chunk (a zero-length message at the end of the input) is never held back waiting for the next one.  R5: a stage that suspends for lack of bytes leaves no observable effect (C15 R1), so a conformant stream decodes the same however it is fragmented.  Not decided: the decoding function over all legal encodings.")
     spec = chunk.load_spec()
     m = chunk.ChunkModel(env, rep, "C06.anchors")
     if not m.ok:
@@ -246,6 +246,9 @@ def run(env, rep):
             and all(c and chunk.interval_from_decisions(c, "current_payload_data.len")[0] >= 1 for c in skipped)
     rep.check("C06.R3", "type3-delta-first-chunk-only", ok3, "a type-3 header adds the previous delta only when no payload of the message has been received yet",
               "the type-3 timestamp rule is not guarded by 'first chunk of the message' (payload received so far == 0): %d paths" % n3, m.b["get_next"].span)
+    # ------------------------------------------------------------------ R7: a stage waits only for the bytes it consumes itself
+    if wants(rep, "C06.R7"):
+        chunk.suspend_gates(m, rep, "C06.R7")
     # ------------------------------------------------------------------ R6: payload bytes per chunk
     if wants(rep, "C06.R6"):
         chunk.payload_take(m, rep, "C06.R6")
